@@ -388,8 +388,11 @@ def gen_valid_case(rng, cid):
     # reloading its configuration): the entry points must launch what the file says NOW
     rewritten = loc == "utf-8" and rng.random() < 0.25
     dims.append("file-history:" + ("rewritten-in-place-after-a-load" if rewritten else "fresh"))
+    # the host has used a default environment of its own before (built another server's env from it, in place)
+    scribbles = rng.random() < 0.35
+    dims.append("host-default-env:" + ("written-into-by-the-host" if scribbles else "untouched"))
     return {"kind": "valid", "id": cid, "config": cfg, "ser": ser, "path_kind": path_kind, "hostenv": hostenv, "backend": backend,
-            "locale": loc, "rewritten": rewritten,
+            "locale": loc, "rewritten": rewritten, "host_builds_an_env_from_the_default": scribbles,
             "loader_names": loader_names, "cli_names": cli_names, "runner_lists": lists, "dims": dims}
 
 
@@ -537,6 +540,7 @@ def materialise(case, rundir, witness):
     if only is not None:
         steps = [only]
     job = {"id": case["id"], "path": path, "dirs": dirs, "hostenv": case.get("hostenv", {}), "steps": steps,
+           "host_builds_an_env_from_the_default": bool(case.get("host_builds_an_env_from_the_default")),
            "backend": case.get("backend", "pydantic"), "locale": case.get("locale", "utf-8")}
     if case["kind"] == "valid" and case.get("rewritten"):
         job["pre"] = pre
@@ -622,7 +626,8 @@ def refusers_of(src):
 
 
 def compact_case(case, step):
-    c = {k: case[k] for k in ("kind", "config", "ser", "path_kind", "hostenv", "text", "sub", "backend", "locale") if k in case}
+    c = {k: case[k] for k in ("kind", "config", "ser", "path_kind", "hostenv", "text", "sub", "backend", "locale",
+                              "host_builds_an_env_from_the_default") if k in case}
     c["step"] = step
     return c
 
@@ -764,6 +769,20 @@ class Judge:
                     if count:
                         ctx.spec_total += 1
                         ctx.count("launches-per-run:%d" % min(len(o["procs"]), 5))
+                    # a variable in a launched server's environment is CONFIGURED (somewhere in the file) or INHERITED (the
+                    # host's environment holds it with that value at launch): anything else came from nowhere the property
+                    # allows - e.g. out of a mapping the host had been handed earlier and had written into
+                    pairs = {k for sv in (case.get("config", {}).get("mcpServers", {}) or {}).values() if isinstance(sv, dict)
+                             and isinstance(sv.get("env"), dict) for k in sv["env"]}      # by NAME: values hold placeholders here
+                    foreign = sorted({k for p_ in it["run_obs"]["procs"] for k, v in p_["env"].items()
+                                      if res["host"].get(k) != v and k not in pairs and not k.startswith("C20_WITNESS")
+                                      and k not in ("LC_CTYPE", "PWD", "SHLVL", "_", "OLDPWD")})
+                    if count:
+                        ctx.spec_total += 1
+                    if foreign:
+                        fails.append(("spec", f"{label}:server-environment-holds-a-variable-neither-configured-nor-inherited", cc,
+                                      f"variables {foreign} of a launched server are neither configured in the file nor in the host's "
+                                      f"environment with that value"))
                     if ans[it["q_rspec"]]:
                         if o != m:
                             fails.append(("mismatch", cc, o, m, f"{label}: model != implementation"))
